@@ -496,6 +496,10 @@ def run(repo, rep):
     rep.floor('C07.f', n, 4)
     from .c07_shape import run_shape
     rep.floor('C07.h', run_shape(repo, rep), 20)
+    # a path literal that is too long for the line is broken at its separators: the split pattern must keep every character
+    # (re.split drops whatever is matched outside the one capturing group) - the rule of C02.b on the stdlib printers' own patterns
+    from .c02 import _patterns
+    rep.floor('C07.j', _patterns(repo, rep, 'C07.j', lambda name: 'split_pattern' in name), 1)
     # C07.i: what a bundled printer prints below itself is printed under the caller's settings (imported from the context model)
     from . import ctxmodel
     ni = ctxmodel.report(repo, rep, 'C07.i', lambda k: ':keeps:' in k or k.startswith('ctor:stores:'),
